@@ -64,9 +64,6 @@ func (p *Program) buildTransparent(rfile *refFile) {
 			cands[f] = true
 		}
 	}
-	if len(cands) == 0 {
-		return
-	}
 	sites := map[*ssa.Function][]ssa.Instruction{}
 	valueUse := map[*ssa.Function]bool{}
 	for _, f := range p.SrcFuncs() {
@@ -100,6 +97,33 @@ func (p *Program) buildTransparent(rfile *refFile) {
 		}
 		transparentSite[f] = call
 	}
+	// immediately invoked function literals (`func() { mu.Lock(); defer mu.Unlock(); … }()`): the body runs exactly
+	// here, synchronously — part of the enclosing function
+	for _, f := range p.SrcFuncs() {
+		for _, b := range f.Blocks {
+			for _, in := range b.Instrs {
+				call, ok := in.(*ssa.Call)
+				if !ok {
+					continue
+				}
+				mc, ok := call.Call.Value.(*ssa.MakeClosure)
+				if !ok || mc.Referrers() == nil {
+					continue
+				}
+				only := true
+				for _, r := range *mc.Referrers() {
+					if r != ssa.Instruction(call) {
+						if _, isDbg := r.(*ssa.DebugRef); !isDbg {
+							only = false
+						}
+					}
+				}
+				if af, isFn := mc.Fn.(*ssa.Function); isFn && only && len(af.Blocks) > 0 {
+					transparentSite[af] = call
+				}
+			}
+		}
+	}
 	// no cycles through transparent functions
 	for f := range transparentSite {
 		seen := map[*ssa.Function]bool{}
@@ -123,7 +147,7 @@ func siteOf(fn *ssa.Function) *ssa.Call {
 	if len(transparentSite) == 0 || fn == nil {
 		return nil
 	}
-	return transparentSite[rawTop(fn)]
+	return transparentSite[fn]
 }
 
 // transparentCallee: in is the (unique) call of a transparent function.
@@ -144,7 +168,7 @@ func transparentCallee(in ssa.Instruction) *ssa.Function {
 
 // ownerOf: the ordinary function a (possibly transparent) function's body belongs to.
 func ownerOf(fn *ssa.Function) *ssa.Function {
-	for i := 0; i < 8; i++ {
+	for i := 0; i < 12; i++ {
 		s := siteOf(fn)
 		if s == nil {
 			return fn
@@ -207,7 +231,7 @@ func resolveParam(v ssa.Value) ssa.Value {
 			return v
 		}
 		s := siteOf(par.Parent())
-		if s == nil || rawTop(par.Parent()) != par.Parent() {
+		if s == nil {
 			return v
 		}
 		found := false
